@@ -4,6 +4,8 @@ use crate::ctx::*;
 use crate::geom::*;
 use crate::monitors::*;
 use crate::props_a::*;
+use crate::props_b::*;
+use crate::util::Rng;
 use serde_json::Value;
 
 pub fn worker(ctx: &mut Ctx) {
@@ -11,7 +13,15 @@ pub fn worker(ctx: &mut Ctx) {
         "C01" => c01_worker(ctx),
         "C02" => c02_worker(ctx),
         "C04" => c04_worker(ctx),
+        "C03" => c03_worker(ctx),
         "C05" => c05_worker(ctx),
+        "C06" => c06_worker(ctx),
+        "C07" => c07_worker(ctx),
+        "C08" => c08_worker(ctx),
+        "C09" => c09_worker(ctx),
+        "C10" => c10_worker(ctx),
+        "C11" => c11_worker(ctx),
+        "C12" => c12_worker(ctx),
         p => panic!("no worker for {}", p),
     }
 }
@@ -20,7 +30,15 @@ pub fn worker(ctx: &mut Ctx) {
 pub fn plan(prop: &str, _tier: Tier) -> Vec<(String, u64)> {
     let v = |s: &str, n: u64| (s.to_string(), n);
     match prop {
-        "C01" | "C02" | "C04" | "C05" => vec![v("release", 16)],
+        "C01" | "C02" | "C04" | "C05" | "C06" | "C07" | "C08" | "C09" | "C10" | "C11" => vec![v("release", 16)],
+        "C03" => match _tier {
+            Tier::Quick => vec![v("release", 8), v("dbg", 8), v("asan", 8), v("miri", 8)],
+            Tier::Thorough => vec![v("release", 16), v("dbg", 16), v("asan", 16), v("miri", 16), v("valgrind", 8)],
+        },
+        "C12" => match _tier {
+            Tier::Quick => vec![v("release", 8), v("tsan", 8), v("miri", 4)],
+            Tier::Thorough => vec![v("release", 16), v("tsan", 16), v("miri", 16)],
+        },
         _ => vec![],
     }
 }
@@ -42,6 +60,14 @@ pub fn rule(prop: &str) -> (String, Vec<String>) {
         "C02" => format!("one evaluation = one Boolean operation whose returned polygon set is validated structurally (every boundary edge separates 'inside exactly its own polygon' from 'inside no polygon', holes inside their exterior and outside siblings, no boundary piece used twice, polygon-by-polygon reading == even-odd reading at every witness); shared-edge families weighted up plus constructed stacks/touching/nesting configurations; {}; non-trivial = full sweep runs; distinct = hash of (operands, operation)", domains),
         "C04" => format!("one evaluation = one Boolean operation whose result edges/vertices/rings are traced back to the inputs (edge on an input edge; vertex bit-identical to an input vertex or at the exact rational / tolerance intersection of two input edges; closed, >=3 distinct vertices, non-zero area, CCW when assembled); {}; non-trivial = full sweep runs; distinct = hash of (operands, operation)", domains),
         "C05" => format!("one evaluation = one operand pair on which intersection, union, A-B, B-A and xor are computed and compared with each other at every witness point and through the three area identities (exactly on exact families); {}; non-trivial = full sweep runs; distinct = hash of operands", domains),
+        "C03" => format!("one evaluation = one Boolean call (f64 or f32) with step budgets armed (sweep events <= 4n^2+8n+64 for n input edges, bubble passes and contour steps bounded by the same), run in release, debug-assertion, AddressSanitizer, Miri (Tree Borrows) and (thorough) valgrind builds; panic, budget excess, signal or sanitizer report = violation; {}; plus degenerate operands (empty, empty rings, repeated vertices) and 10^5..10^6-edge combs/checkerboards; every case counts as non-trivial (any input may fail to return); distinct = hash of (operands, operation, float type)", domains),
+        "C06" => format!("one evaluation = one operand pair on which commutativity (ring sets on exact families, regions otherwise), A op A, empty operands in two encodings, and disjoint / touching bounding boxes are checked; {}; non-trivial = full sweep runs on the base pair; distinct = hash of operands", domains),
+        "C07" => format!("one evaluation = one operand pair re-represented three times (ring start, direction, order of parts and holes, repeated vertices) x 4 operations, plus the three other trait pairings and the named methods; regions compared everywhere, canonical ring sets on exact families, pairings bit for bit; {}; non-trivial = full sweep runs; distinct = hash of operands", domains),
+        "C08" => format!("one evaluation = one operand pair x (two random power-of-two scalings compared bit for bit, one integer translation on exact families compared as canonical polygon sets, the 7 non-trivial axis symmetries compared as regions at transformed witnesses) x 4 operations; {}; non-trivial = full sweep runs; distinct = hash of operands", domains),
+        "C09" => format!("one evaluation = one operand pair x 8 placements of a far triangle (4 sides x subject/clipping) x 4 operations compared as canonical ring sets with the part's own contribution, plus shortcut-vs-sweep on the same geometry; hook counters show how often the trivial path and the early break were taken; {}; non-trivial = full sweep runs on the base pair; distinct = hash of operands", domains),
+        "C10" => format!("one evaluation = one f32-representable operand pair on which the C01/C02/C04/C05 monitors run with MultiPolygon<f32>, and on exact small-integer inputs the f32 result is compared coordinate for coordinate with the f64 result; {}; non-trivial = full sweep runs; distinct = hash of operands", domains),
+        "C11" => "one evaluation = one triple (A,B,C) of regions on one exact tessellation (D1 grid / D2 lattice) x 16 operation pairs x 4 chain shapes ((A op B) op' C, C op' (A op B), (A op B) op' B, A op' (A op B)) compared with the pointwise combination at every face centroid; intermediates validated structurally; non-trivial = full sweep runs on (A,B); distinct = hash of the three operands".to_string(),
+        "C12" => format!("one evaluation = one operand pair: bitwise operand snapshots around every call, 4 operations repeated after unrelated operations and heap perturbation, then 3 or 16 threads calling concurrently on Arc-shared operands with a recorded (thread, call, input-hash, output-hash) history checked offline; same workload under ThreadSanitizer and Miri (data-race detector); {}; every case non-trivial; distinct = hash of operands", domains),
         _ => String::new(),
     };
     (r, common)
@@ -63,9 +89,26 @@ pub fn replay(r: &Value) -> Result<String, (String, String)> {
                 "C02" => c02_check(&case, op.unwrap(), f32_run, &w, &mut StructStats::default()).map(|_| "structure valid".to_string()),
                 "C04" => c04_check(&case, op.unwrap(), f32_run, &mut ProvStats::default()).map(|_| "provenance valid".to_string()),
                 "C05" => c05_check(&case, f32_run, &w).map(|n| format!("{} witnesses consistent", n)),
+                "C03" => c03_check(&case, op.unwrap(), f32_run).map(|_| "returns normally".to_string()),
+                "C06" => c06_check(&case, f32_run, &mut Default::default()).map(|_| "laws hold".to_string()),
+                "C07" => {
+                    let mut rng = Rng::keyed(r["extra"]["seed"].as_u64().unwrap_or(1), "C07/rerepresent", r["extra"]["rerepresent_stream"].as_u64().unwrap_or(0));
+                    c07_check(&case, &mut rng, f32_run, &mut Default::default()).map(|_| "representation independent".to_string())
+                }
+                "C08" => {
+                    let mut rng = Rng::keyed(r["extra"]["seed"].as_u64().unwrap_or(1), "C08/transform", r["extra"]["stream"].as_u64().unwrap_or(0));
+                    c08_check(&case, &mut rng, f32_run, &mut Default::default()).map(|_| "commutes with the transforms".to_string())
+                }
+                "C09" => c09_check(&case, f32_run, &mut Default::default()).map(|_| "far parts and shortcuts agree".to_string()),
+                "C10" => c10_check(&case, &mut Default::default()).map(|_| "f32 agrees".to_string()),
+                "C12" => {
+                    let mut rng = Rng::keyed(1, "C12/replay", 0);
+                    c12_check(&case, &mut rng, r["extra"]["threads"].as_u64().unwrap_or(3) as usize, 3, &mut Default::default()).map(|_| "pure and deterministic".to_string())
+                }
                 _ => Err(("harness".into(), format!("no replay for property {}", prop))),
             }
         }
+        "triple" => c11_check(&triple_from_json(r), &mut Default::default()).map(|_| "chains agree".to_string()),
         "generated" => {
             let prop = r["property"].as_str().unwrap_or("");
             let mut ctx = Ctx::new(prop, Tier::parse(r["tier"].as_str().unwrap_or("quick")), r["seed"].as_u64().unwrap_or(1), 0, 1, r["variant"].as_str().unwrap_or("release"), "", 600.0);
@@ -80,4 +123,25 @@ pub fn replay(r: &Value) -> Result<String, (String, String)> {
         }
         _ => Err(("harness".into(), format!("unknown replay kind {}", kind))),
     }
+}
+
+/// Diagnostic: run the whole-operation monitors on one operand pair given as JSON {"a":..,"b":..}.
+pub fn probe(v: &Value) {
+    let mut case = case_from_json(v);
+    case.integer = is_integer_mp(&case.a, 3.0e7) && is_integer_mp(&case.b, 3.0e7);
+    for f32_run in [false, true] {
+        let w = witnesses(&case, case.tol(f32_run));
+        for op in OPS {
+            let c3 = c03_check(&case, op, f32_run);
+            let c1 = c01_check(&case, op, f32_run, crate::iface::Pairing::MM, &w);
+            let c2 = c02_check(&case, op, f32_run, &w, &mut StructStats::default());
+            let c4 = c04_check(&case, op, f32_run, &mut ProvStats::default());
+            let short = |r: Result<String, (String, String)>| match r {
+                Ok(_) => "ok".to_string(),
+                Err((s, d)) => format!("[{}] {}", s, d.chars().take(160).collect::<String>()),
+            };
+            println!("{} {:12} C03={} | C01={} | C02={} | C04={}", if f32_run { "f32" } else { "f64" }, op.name(), short(c3.map(|_| String::new())), short(c1.map(|_| String::new())), short(c2.map(|_| String::new())), short(c4.map(|_| String::new())));
+        }
+    }
+    println!("operands_hash={}", operands_hash(&case.a, &case.b));
 }
